@@ -16,9 +16,13 @@ macro "ptr_arith" : tactic => `(tactic| (
   all_goals (try simp_all)
   all_goals (try omega)))
 
+/-- variant that decides `if`s by `omega` and keeps the hypotheses intact -/
+macro "ptr_arith2" : tactic => `(tactic| (
+  repeat' (first | omega | (apply And.intro) | (rw [if_pos (by omega)]) | (rw [if_neg (by omega)]) | split | (simp [*]; done) | simp)))
+
 theorem new_eq (m : Mem) :
     new m = if m.alloc.1 then (.ok, some (ofList []), m.alloc.2) else (.errAlloc, none, m.alloc.2) := by
-  unfold new; cases h : m.alloc.1 <;> simp [h]
+  unfold new; cases h : m.alloc.1 <;> simp [h, ofList_nil]
 
 theorem getNodeAt_ofList (xs : List Nat) (i : Nat) :
     getNodeAt (ofList xs) i = if i < xs.length then (.ok, some i) else (.errOutOfRange, none) := by
